@@ -75,10 +75,11 @@ check("C01", "exploration",
       required_probes=["insert_hinted", "erase_leaf", "erase_one_child", "erase_two_children_succ_is_child",
                        "erase_two_children_succ_deeper", "erase_root", "erase_absent", "foreach_cancel", "find_absent", "find_present"])
 check("C02", "exploration",
-      [dict(world="trees", mode=2, variants=V_TREES, quick=60000, thorough=6000000)],
+      [dict(world="trees", mode=2, variants=V_TREES, quick=60000, thorough=6000000),
+       dict(world="trees", mode=102, variants={"rel": 0.5, "asan": 0.5}, quick=8, thorough=300)],
       RULE_SEQ, ["src/rbtree.c", "src/bintree.c", "include/cstl/rbtree.h"],
       required_probes=["insert_hinted", "erase_leaf", "erase_one_child", "erase_two_children_succ_is_child",
-                       "erase_two_children_succ_deeper", "erase_root"])
+                       "erase_two_children_succ_deeper", "erase_root", "huge_tree", "huge_tree_taller_than_32"])
 check("C07", "exploration",
       [dict(world="heap", mode=7, variants=V_TREES, quick=60000, thorough=4000000),
        dict(world="heap", mode=107, variants={"rel": 0.7, "dbg": 0.3}, quick=40, thorough=2000)],
@@ -273,8 +274,8 @@ check("C11", "exploration",
       "1-2 sorts with a seeded selector (four named algorithms and four out-of-range values) and either cstl_swap or a checking swap callback, binary searches and finds on the result}; rand() is the simulator's (uniform, or bounded adversarial streaks of pivot-last values); "
       "distinct = distinct plan hash; non-trivial = the last array had >= 2 elements",
       ["src/array.c (raw array functions)", "include/cstl/common.h (cstl_swap)"],
-      stubs=["rand() (seeded stream; sticky mode repeats 0, RAND_MAX, 720719, small integers in streaks of at most 8 draws followed by a uniform draw)"],
-      required_probes=["selector_out_of_range", "rand_calls", "custom_swap_checked", "probe_present", "probe_absent", "single_element_probe", "reverse", "large_array", "few_distinct_values"],
+      stubs=["comparison function: in 1/12 of the runs one sort is made against McIlroy's lazily deciding adversary (legal, consistent, forces the deepest recursion)", "rand() (seeded stream; sticky mode repeats 0, RAND_MAX, 720719, small integers in streaks of at most 8 draws followed by a uniform draw)"],
+      required_probes=["selector_out_of_range", "rand_calls", "custom_swap_checked", "probe_present", "probe_absent", "single_element_probe", "reverse", "large_array", "few_distinct_values", "adversary_sort", "adversary_forced_quadratic"],
       assumptions=["apart from the pivot stream and the callbacks this is input generation; the exhaustive small-alphabet enumeration named in the property's quantifier is NOT done",
                    "an unbounded adversarial rand() (constant forever) makes the randomised variant recurse without bound; excluded as outside rand()'s contract"])
 mtext("C11",
@@ -289,13 +290,14 @@ mtext("C11",
 V_C15 = {"asan": 0.5, "rel": 0.4, "dbg": 0.1}
 check("C15", "exploration",
       [dict(world="trees", mode=15, variants=V_C15, quick=30000, thorough=1000000),
+       dict(world="trees", mode=102, variants={"rel": 0.5, "asan": 0.5}, quick=8, thorough=300),
        dict(world="heap", mode=15, variants=V_C15, quick=30000, thorough=1000000),
        dict(world="lists", mode=15, variants=V_C15, quick=30000, thorough=1000000),
        dict(world="map", mode=15, variants={"asan": 0.5, "rel": 0.5}, quick=30000, thorough=1000000)],
       "one evaluation = one seeded history in which clear is frequent and its callback counts per element, overwrites the whole element with 0xDD and frees it to the sim heap (poisoned, quarantined; really freed under ASan), "
       "followed by a refill of the same container and ordinary operations with the world's full audit; container states at the moment of clear come from the preceding seeded history; distinct = distinct plan hash; non-trivial as in the world",
       ["src/bintree.c (clear)", "src/dlist.c", "src/slist.c", "src/map.c", "include/cstl/rbtree.h", "include/cstl/heap.h"],
-      required_probes=["clear", "clear_3plus", "d_clear", "s_clear", "map_clear"],
+      required_probes=["clear", "clear_3plus", "d_clear", "s_clear", "map_clear", "huge_tree", "huge_clear_taller_than_32", "int_key_map_clear"],
       stubs=["clear callbacks that free and poison what they are handed (a fault injected at a seam)"])
 mtext("C15",
       "Runs inside the trees / heap / lists / map worlds with clear-heavy plans: the clear callback records the identity of what it is handed, overwrites the element with 0xDD and frees it to the sim heap; the multiset of callbacks must equal the model's content exactly, "
